@@ -18,6 +18,7 @@ type Clause struct {
 	Src   string
 	Expr  ast.Expr
 	Line  int
+	Only  []string // property ids this clause is checked for ("[C10] label: expr"); empty = all props of the contract
 }
 
 type ModClause struct {
@@ -53,6 +54,7 @@ type Contract struct {
 	NoPanic      bool
 	FrameChecked bool
 	NoFrame      bool
+	WritesImmut  []string // waivers: heaps declared immutable that this function may write on objects it owns
 	CallbackPure bool
 	Rnd64        bool
 	Allocates    bool
@@ -136,11 +138,18 @@ type RecFunc struct {
 	Body   string // SMT body (raw)
 }
 
-var clauseKW = regexp.MustCompile(`^(requires|ensures|modifies|held|acquires|loop|option|props|assert|before|observe|count|atreturn|tick)\b`)
+var clauseKW = regexp.MustCompile(`^(requires|ensures|modifies|held|acquires|loop|option|props|assert|before|observe|count|atreturn|tick|owns)\b`)
 var labelRe = regexp.MustCompile(`^([A-Za-z][A-Za-z0-9_\-]*):\s+(.*)$`)
 
 func parseClause(src string, line int) (*Clause, error) {
 	c := &Clause{Src: src, Line: line}
+	if strings.HasPrefix(src, "[") {
+		if j := strings.Index(src, "]"); j > 0 {
+			c.Only = strings.Fields(src[1:j])
+			src = strings.TrimSpace(src[j+1:])
+			c.Src = src
+		}
+	}
 	if m := labelRe.FindStringSubmatch(src); m != nil {
 		c.Label = m[1]
 		src = m[2]
@@ -350,6 +359,9 @@ func parseContractFile(path, pkgPath string) (*PkgSpec, error) {
 				return nil, fail(err)
 			}
 			cur.AtReturn = append(cur.AtReturn, c)
+		case strings.HasPrefix(t, "owns "):
+			// owns TimeSlot.End: this function reassigns an otherwise immutable field on objects only it can reach
+			cur.WritesImmut = append(cur.WritesImmut, strings.Fields(strings.TrimPrefix(t, "owns "))...)
 		case strings.HasPrefix(t, "tick "):
 			m := regexp.MustCompile(`^tick\s+([A-Za-z_][A-Za-z0-9_]*)\s+at\s+(\S+)$`).FindStringSubmatch(t)
 			if m == nil {
